@@ -58,6 +58,28 @@ def main(tier):
                 m *= fac(u) ** e
             return m
 
+        gen_of = {x["unit"]: x for x in gen}
+
+        def expand(parts, depth=0):
+            """parts -> ([(leaf atom, exponent)], numeric prefactor): compound atoms are replaced by their own parts (relative to base rows not)"""
+            leaves, pref = [], 1.0
+            for p in parts:
+                sub = gen_of.get(p["atom"])
+                pref *= float(p["pre"]) ** p["exp"]
+                if sub and sub["parts"] and all(fac(r_["atom"]) == 1.0 for r_ in (sub.get("refparts") or [])) and depth < 3 and not (len(sub["parts"]) == 1 and sub["parts"][0]["atom"] == p["atom"]):
+                    l2, p2 = expand(sub["parts"], depth + 1)
+                    comp_ = p2
+                    for a_, e_ in l2:
+                        comp_ *= fac(a_) ** e_
+                    if not comp_ or abs(fac(p["atom"]) / comp_ - 1.0) > 1e-5:
+                        leaves.append((p["atom"], p["exp"]))       # the row's symbol does not read as its parts (Mm3 = 1000 m3): kept as a leaf
+                        continue
+                    leaves += [(a_, e_ * p["exp"]) for a_, e_ in l2]
+                    pref *= p2 ** p["exp"]
+                else:
+                    leaves.append((p["atom"], p["exp"]))
+            return leaves, pref
+
         cats_of = {}
         for c_ in proj["cats"]:
             cats_of.setdefault(c_["qt"], []).append(c_["cat"])
@@ -96,6 +118,34 @@ def main(tier):
                     ratio_scalar = fac(u) / mag
                     if ppb(fac(u) / mag2) > ppb(ratio_scalar):
                         ratio_scalar = fac(u) / mag2
+                    # the same composition on numpy-backed Arrays, down to the leaves (a part that is itself a compound row - ft2, in3 - is
+                    # expanded into its own parts), the combination evaluated twice from the same part powers: operands that took part in a
+                    # product / quotient must still hold the amounts their label says
+                    leaves, pref = expand(g["parts"])
+                    if len(leaves) >= 2 and all(db.unit_to_unit_info[a_].tobase(0.0) == 0.0 for a_, _e in leaves):
+                        import numpy
+                        from barril.units import Array
+                        pw = []
+                        for atom_, e_ in leaves:
+                            a_ = Array(numpy.array([1.0, 2.0]), atom_)
+                            f_ = a_
+                            for _ in range(abs(e_) - 1):
+                                f_ = f_ * a_
+                            pw.append((f_, e_ > 0))
+                        for _round in (1, 2):
+                            accA = None
+                            for f_, num_ in pw:
+                                if num_:
+                                    accA = f_ if accA is None else accA * f_
+                            for f_, num_ in pw:
+                                if not num_:
+                                    accA = (1.0 / f_) if accA is None else accA / f_
+                            if hasattr(accA, "GetQuantity"):
+                                mA = float(accA.GetAbstractValue()[0]) * pref
+                                for c_, (uu_, ee_) in accA.GetQuantity().GetCategoryToUnitAndExps().items():
+                                    mA *= fac(uu_) ** ee_
+                                if ppb(fac(u) / mA) > ppb(ratio_scalar):
+                                    ratio_scalar = fac(u) / mA
                     # third grouping: every repeated factor written with the power operator,  a ** 2 * b / c ** 3
                     if any(abs(p["exp"]) >= 2 for p in g["parts"]):
                         acc3 = 1.0
